@@ -3,7 +3,8 @@ os._exit right AFTER its k-th file-system call (os.rename / replace / remove / u
 truncate, patched in the child), for every k; buffered data of the child is lost, completed system calls survive.  The parent
 then re-opens the repository from disk and checks: it opens; every ref holds its old or its new value and names an object that
 is present, readable and hashes to its name; every object readable before is still readable; no loose object file is empty or
-unparsable.  Power loss (unsynced data missing) is NOT modelled.  Never counted as proved."""
+unparsable.  Power-loss variant (core.fsyncObjectFiles = true): a file renamed / replaced into place whose inode was never fsynced is
+zero-length after the crash; other forms of power loss (partial writes, directory entries) are not modelled.  Never counted as proved."""
 import json
 import os
 import sys
@@ -104,21 +105,43 @@ def main():
         finally:
             r.close()
 
-    def run_child(path, op, k):
-        """returns the number of patched calls made if the child survived (k too large), else None"""
+    def run_child(path, op, k, power=False):
+        """returns the number of patched calls made if the child survived (k too large), else None.
+        power=True: power-loss variant - a file that was renamed / replaced into place although its inode had never been fsynced
+        loses its content (zero length) at the moment of the crash"""
         rd, wr = os.pipe()
         pid = os.fork()
         if pid == 0:
             try:
                 os.close(rd)
                 count = [0]
+                synced, unsynced_published = set(), []
+                real_stat, real_fstat, real_truncate = os.stat, os.fstat, os.truncate
                 for name in PATCHED:
                     real = getattr(os, name)
 
-                    def wrapped(*a, _real=real, **kw):
+                    def wrapped(*a, _real=real, _name=name, **kw):
+                        if power and _name == "fsync":
+                            try:
+                                synced.add(real_fstat(a[0]).st_ino)
+                            except OSError:
+                                pass
+                        ino = None
+                        if power and _name in ("rename", "replace"):
+                            try:
+                                ino = real_stat(a[0]).st_ino
+                            except OSError:
+                                ino = None
                         res = _real(*a, **kw)
+                        if ino is not None and ino not in synced:
+                            unsynced_published.append(a[1])
                         count[0] += 1
                         if count[0] == k:
+                            for dst_ in unsynced_published:      # power loss: data that was never synced is gone
+                                try:
+                                    real_truncate(dst_, 0)
+                                except OSError:
+                                    pass
                             os._exit(17)                 # dies right after the k-th call: Python-level buffers are lost
                         return res
                     setattr(os, name, wrapped)
@@ -154,19 +177,29 @@ def main():
                 base = os.path.join(d, f"base_{int(packed)}_{op.__name__}")
                 setup(base, packed)
                 refs0, objs0 = snapshot(base)
+                _r = Repo(base)
+                idx0 = sorted(_r.open_index())
+                _r.close()
                 # the uninterrupted run defines the new values
                 done = os.path.join(d, "done")
                 shutil.copytree(base, done, symlinks=True)
                 total = run_child(done, op, 10 ** 9)
                 refs1, _objs1 = snapshot(done)
+                _r = Repo(done)
+                idx1 = sorted(_r.open_index())
+                _r.close()
                 shutil.rmtree(done)
-                for k in range(1, (total or 0) + 1):
+                # (with fsync enabled the operation makes more calls: a margin on top of the uninterrupted count; a k beyond the end is a no-op)
+                for k, power in [(k_, pw) for pw in (False, True) for k_ in range(1, (total or 0) + 1 + (14 if pw else 0))]:
                     cases += 1
                     work = os.path.join(d, "work")
                     shutil.copytree(base, work, symlinks=True)
-                    what = {"operation": op.__name__[3:], "start": "packed" if packed else "loose", "crash_after_call": k, "of": total}
+                    what = {"operation": op.__name__[3:], "start": "packed" if packed else "loose", "crash_after_call": k, "of": total, "model": "power loss (core.fsyncObjectFiles=true)" if power else "process crash"}
                     try:
-                        run_child(work, op, k)
+                        if power:
+                            with open(os.path.join(work, ".git", "config"), "ab") as cf:
+                                cf.write(b"[core]\n\tfsyncObjectFiles = true\n[index]\n\tskipHash = true\n")
+                        run_child(work, op, k, power)
                         try:
                             r = Repo(work)
                         except Exception as e:  # noqa: BLE001
@@ -189,6 +222,12 @@ def main():
                                         o.check()
                                     except Exception as e:  # noqa: BLE001
                                         fail("after the crash a ref names an object that is missing or unreadable", dict(what, ref=name.decode(), exc=repr(e)[:150]))
+                            try:
+                                idx_paths = sorted(r.open_index())
+                                if idx_paths != idx0 and idx_paths != idx1:
+                                    fail("after the crash the index lists neither its old nor its new paths", dict(what, paths=[p_.decode("latin-1") for p_ in idx_paths][:5]))
+                            except Exception as e:  # noqa: BLE001
+                                fail("the index cannot be read after the crash", dict(what, exc=repr(e)[:150]))
                             for sha, raw in objs0.items():
                                 try:
                                     if st.get_raw(sha) != raw:
@@ -209,7 +248,7 @@ def main():
                 shutil.rmtree(base, ignore_errors=True)
     print(json.dumps({"name": "c09_crash", "function": "dulwich object store / refs / index / gc writers (process-crash model)", "cases": cases, "exhaustive": True,
                       "bound": f"{len(OPS)} operations (commit, add objects, delete / set / pack refs, pack loose objects, repack, gc, set HEAD) x loose / packed starting state x a crash right after "
-                               f"each of the operation's calls of os.{{{', '.join(PATCHED)}}}; process-crash model only (completed calls survive, buffered data is lost), no power loss",
+                               f"each of the operation's calls of os.{{{', '.join(PATCHED)}}}; process-crash model (completed calls survive, buffered data is lost) and a power-loss variant with core.fsyncObjectFiles = true, index.skipHash = true (a file renamed into place without its inode ever having been fsynced is empty after the crash)",
                       "failures": failures, "secs": round(time.time() - t0, 2)}))
 
 
